@@ -123,6 +123,23 @@ def examine(t, s, v, tier, rng, want):
         if not same:
             out.append(("C12", f"percent-operator-differs-from-substitute|{tcls}|{tname(v)}",
                         f"substitute: {res[0]} / %: {r2[0]}"))
+    # the caller changes the container it has just substituted (in place) and substitutes it again:
+    # the outcome is that of substituting a fresh, equal container
+    if "C05" in want and isinstance(given, (list, dict)) and type(given) in (list, dict):
+        try:
+            if isinstance(given, list):
+                given.append("q")
+            else:
+                given["zz"] = "q"
+            again = try_subst(s, given)
+            fresh = try_subst(s, cp(given))
+            same2 = again[0] == fresh[0] and (again[0] != "ok" or not isinstance(again[1], Schema)
+                                              or fp(again[1]) == fp(fresh[1]))
+            if not same2:
+                out.append(("C05", f"changed-container-substituted-again-differs-from-a-fresh-one|{tcls}|{tname(v)}",
+                            f"again: {again[0]} fresh: {fresh[0]}"))
+        except Exception:  # noqa: BLE001
+            pass
     if res[0] == "exc":
         if "C12" in want:
             kind = tname(v) + ("|contains-int-over-4300-digits" if has_huge(v) else "")
